@@ -130,6 +130,8 @@ func runC02(c *Ctx) {
 	c.Rule("R2.4", 3, "regexToDFA: Parse -> ToDFA -> language-preserving steps, error returned")
 	c.Rule("R2.5", 20, "the combinator grammar equals the documented pattern grammar rule by rule")
 	checkRegexGrammarDocs(c, "R2.5")
+	c.Rule("R2.6", 1, "a character group is a set: listing a character twice is listing it once")
+	checkMembershipIdempotent(c, "R2.6", "internal/regex/parser/nfa", "internal/regex/parser/ast")
 
 	classes, cpos, pp := evalRuneClasses(c, "R2.1")
 	if classes == nil {
@@ -1318,4 +1320,134 @@ func checkRuneHelperResults(c *Ctx, rule string) {
 		}
 	}
 	c.Extra("rune_helper_call_sites", n)
+}
+
+// checkMembershipIdempotent (R2.6 = R10.9): a membership table of a character group (a []bool or [N]bool indexed by the character)
+// is a set: marking a character twice is marking it once. A store that writes the negation of the entry it overwrites
+// (`m[c] = !m[c]`) makes membership depend on how often a character is listed, and [a-cb], [\w\d] or [aa] lose the characters
+// their items share. Decided on SSA in the mapper packages of both routes: no store into an element of a boolean table whose
+// value is the negation of a load of that same element.
+func checkMembershipIdempotent(c *Ctx, rule string, pkgs ...string) {
+	marks, toggles := 0, 0
+	for _, pk := range pkgs {
+		sp := c.SSAPk[modPath+"/"+pk]
+		if sp == nil {
+			continue
+		}
+		for _, f := range ssaFuncsOf(c, sp) {
+			for _, b := range f.Blocks {
+				for _, in := range b.Instrs {
+					st, ok := in.(*ssa.Store)
+					if !ok {
+						continue
+					}
+					ia, ok := st.Addr.(*ssa.IndexAddr)
+					if !ok {
+						continue
+					}
+					if bt, ok := st.Val.Type().Underlying().(*types.Basic); !ok || bt.Kind() != types.Bool {
+						continue
+					}
+					marks++
+					un, ok := st.Val.(*ssa.UnOp)
+					if !ok || un.Op != token.NOT {
+						continue
+					}
+					ld, ok := un.X.(*ssa.UnOp)
+					if !ok || ld.Op != token.MUL {
+						continue
+					}
+					ia2, ok := ld.X.(*ssa.IndexAddr)
+					if !ok || ia2.X != ia.X || ia2.Index != ia.Index {
+						continue
+					}
+					// a pass over the table itself (index = the counter of a loop) visits every entry once: that is complementing
+					// the set, not marking a character
+					if isLoopCounter(ia.Index) {
+						continue
+					}
+					toggles++
+					c.Fail(rule, shortFn(f)+": marking a character in a membership table does not depend on the entry's previous value", st.Pos(),
+						"the store writes the negation of the entry it overwrites: a character contributed twice (by overlapping items of one group) drops out of the group again",
+						"[a-cb] no longer matches b; [\\w\\d]+ no longer matches 7; [^a-cb] matches b")
+				}
+			}
+		}
+	}
+	if toggles == 0 {
+		if marks == 0 {
+			c.Undecided(rule, "membership tables of character groups", token.NoPos, "no store into a boolean table was found in the mapper packages")
+			return
+		}
+		c.Pass(rule, "no membership table entry is toggled", token.NoPos, fmt.Sprintf("%d stores into boolean tables, none writes the negation of the entry it overwrites", marks))
+	}
+}
+
+// ssaFuncsOf: the functions and methods (with anonymous functions) of an SSA package.
+func ssaFuncsOf(c *Ctx, sp *ssa.Package) []*ssa.Function {
+	var out []*ssa.Function
+	var add func(f *ssa.Function)
+	seen := map[*ssa.Function]bool{}
+	add = func(f *ssa.Function) {
+		if f == nil || seen[f] || len(f.Blocks) == 0 {
+			return
+		}
+		seen[f] = true
+		out = append(out, f)
+		for _, a := range f.AnonFuncs {
+			add(a)
+		}
+	}
+	for _, mem := range sp.Members {
+		switch m := mem.(type) {
+		case *ssa.Function:
+			add(m)
+		case *ssa.Type:
+			for _, recv := range []types.Type{m.Type(), types.NewPointer(m.Type())} {
+				ms := c.Prog.MethodSets.MethodSet(recv)
+				for i := 0; i < ms.Len(); i++ {
+					if f := c.Prog.MethodValue(ms.At(i)); f != nil && f.Pkg == sp {
+						add(f)
+					}
+				}
+			}
+		}
+	}
+	sort.Slice(out, func(i, j int) bool { return out[i].String() < out[j].String() })
+	return out
+}
+
+
+// isLoopCounter: v is the phi of a counting loop (starts at a constant, advanced by a constant), possibly converted.
+func isLoopCounter(v ssa.Value) bool {
+	for {
+		switch x := v.(type) {
+		case *ssa.Convert:
+			v = x.X
+			continue
+		case *ssa.ChangeType:
+			v = x.X
+			continue
+		case *ssa.BinOp:
+			// the rotated form: index = phi + 1
+			if _, isC := x.Y.(*ssa.Const); isC && (x.Op == token.ADD || x.Op == token.SUB) {
+				v = x.X
+				continue
+			}
+		case *ssa.Phi:
+			consts, steps := 0, 0
+			for _, e := range x.Edges {
+				switch ev := e.(type) {
+				case *ssa.Const:
+					consts++
+				case *ssa.BinOp:
+					if _, isC := ev.Y.(*ssa.Const); isC && (ev.Op == token.ADD || ev.Op == token.SUB) && (ev.X == ssa.Value(x)) {
+						steps++
+					}
+				}
+			}
+			return consts >= 1 && steps >= 1 && consts+steps == len(x.Edges)
+		}
+		return false
+	}
 }
